@@ -40,6 +40,7 @@ CONSTANTS Sides,        \* subset of {"client", "server"}
           FrameAligned, \* TRUE: every call ends exactly at the end of the frame it starts in (design
                         \* checks of the stream logic; the reassembly is checked with FALSE)
           MaxAhead,     \* the environment adds to a direction only while fewer units than this are pending
+          MaxTimeouts,  \* number of Read calls that return a timeout error (the connection goes on)
           EndKinds,     \* ways the connection ends: subset of {"close", "readerr", "writeerr"}
           KeepCalls,    \* TRUE: remember the calls (behaviour generation)
           Variant       \* "intended", or the name of a deliberately wrong machine (mutant)
@@ -66,9 +67,9 @@ VARIABLES side,
           \* machine
           ft,          \* [Dirs -> frame tracer]
           m,           \* shared part: streams, maxSid, waiting, collected, dec, sync, hist
-          ended, calls
+          ended, calls, nTO
 
-vars == <<side, wire, est, nextSid, hsq, nOther, nGoAway, srvLast, pos, out, ft, m, ended, calls>>
+vars == <<side, wire, est, nextSid, hsq, nOther, nGoAway, srvLast, pos, out, ft, m, ended, calls, nTO>>
 
 (* ------------------------------ units ------------------------------ *)
 Units(f) == IF f.t = "PREFACE" THEN PreU ELSE HU + f.pu
@@ -239,7 +240,13 @@ E0 == [on |-> FALSE, nm |-> "", rb |-> <<>>, rsent |-> 0, rcl |-> 0, pst |-> 0, 
 NFrames == Len(wire["req"]) + Len(wire["resp"])
 Room(k) == NFrames + k <= MaxFrames
 
-Put(d, fs) == Pending(d) < MaxAhead /\ wire' = [wire EXCEPT ![d] = @ \o fs]
+\* In frame-aligned design checks a frame is handled before anything else is put on the wire,
+\* unless the other direction is in the middle of a header block (so that frames still come
+\* between a HEADERS and its CONTINUATION).  No order of handled frames is lost by this: the
+\* guards of the senders never look at the peer's frames that are still under way.
+Quiet(d) == Pending(d) = 0 /\ (Pending(Other(d)) = 0 \/ ft[Other(d)].hb)
+Put(d, fs) == /\ IF FrameAligned THEN Quiet(d) ELSE Pending(d) < MaxAhead
+              /\ wire' = [wire EXCEPT ![d] = @ \o fs]
 
 \* a header block spread over 1 + c frames
 Block(d, s, hk, nm, es, st, bp, c) ==
@@ -289,11 +296,12 @@ SendReqRst ==
 ServerMay(s) == est[s].on /\ HandledOpen(s) /\ (srvLast < 0 \/ s <= srvLast)
 
 SendRespHeaders ==
-  /\ \E s \in SidSet, st \in {200, 404}, bp \in BodyPlans, c \in Conts, es \in BOOLEAN :
+  /\ \E s \in SidSet, bp \in BodyPlans, c \in Conts, es \in BOOLEAN :
        /\ ServerMay(s) /\ est[s].pst = 0 /\ Room(c + 1)
        /\ es => bp = <<>>
-       /\ (st = 404) => (bp = <<>> /\ c = 0)
-       /\ Put("resp", Block("resp", s, "response", "", es, st, bp, c))
+       \* the status has no influence on the behaviour; it is a function of the stream so that a
+       \* response attributed to the wrong call shows
+       /\ Put("resp", Block("resp", s, "response", "", es, 200 + s, bp, c))
        /\ est' = [est EXCEPT ![s].pst = IF es THEN 2 ELSE 1, ![s].pb = bp]
   /\ hsq' = [hsq EXCEPT !["resp"] = @ + 1]
   /\ UNCHANGED <<nextSid, nOther, nGoAway, srvLast>>
@@ -343,7 +351,7 @@ SendOther ==
 EnvSend == /\ ~ended
            /\ (OpenStream \/ SendReqData \/ SendReqTrailers \/ SendReqRst \/ SendRespHeaders \/ SendRespData
                \/ SendRespTrailers \/ SendRespRst \/ SendGoAway \/ SendOther)
-           /\ UNCHANGED <<side, pos, out, ft, m, ended, calls>>
+           /\ UNCHANGED <<side, pos, out, ft, m, ended, calls, nTO>>
 
 (* ------------------------------ calls ------------------------------ *)
 Rec(c) == calls' = IF KeepCalls THEN Append(calls, c) ELSE calls
@@ -358,14 +366,23 @@ Deliver(d, n) ==
   /\ pos' = [pos EXCEPT ![d] = @ + n]
   /\ out' = [out EXCEPT ![d] = @ + n]
   /\ Rec([d |-> d, u |-> n, e |-> ""])
-  /\ UNCHANGED <<side, wire, est, nextSid, hsq, nOther, nGoAway, srvLast, ended>>
+  /\ UNCHANGED <<side, wire, est, nextSid, hsq, nOther, nGoAway, srvLast, ended, nTO>>
 
 \* the retry timer of a held-back trace fires
 TimesUp(nm) ==
   /\ AllowTimer /\ ~ended /\ m.waiting[nm] # NoTrace
   /\ m' = [m EXCEPT !.collected = Append(@, m.waiting[nm]), !.waiting[nm] = NoTrace, !.hist = Append(@, TimerEv(nm))]
   /\ Rec([d |-> "", u |-> 0, e |-> "timer:" \o nm])
-  /\ UNCHANGED <<side, wire, est, nextSid, hsq, nOther, nGoAway, srvLast, pos, out, ft, ended>>
+  /\ UNCHANGED <<side, wire, est, nextSid, hsq, nOther, nGoAway, srvLast, pos, out, ft, ended, nTO>>
+
+\* a Read returns (0, timeout error): the HTTP/2 server plays with read deadlines on new
+\* connections; the error goes to the caller, nothing else happens
+ReadDir == IF side = "server" THEN "req" ELSE "resp"
+ReadTimeout ==
+  /\ ~ended /\ nTO < MaxTimeouts
+  /\ nTO' = nTO + 1
+  /\ Rec([d |-> ReadDir, u |-> 0, e |-> "timeout"])
+  /\ UNCHANGED <<side, wire, est, nextSid, hsq, nOther, nGoAway, srvLast, pos, out, ft, m, ended>>
 
 \* the connection ends: Close, or a Read / Write returning an error that is not a timeout
 End(kind) ==
@@ -374,7 +391,7 @@ End(kind) ==
   /\ m' = CancelAll([m EXCEPT !.hist = Append(@, EndEv(kind))], EndErr(kind))
   /\ ended' = TRUE
   /\ Rec([d |-> "", u |-> 0, e |-> kind])
-  /\ UNCHANGED <<side, wire, est, nextSid, hsq, nOther, nGoAway, srvLast, pos, out, ft>>
+  /\ UNCHANGED <<side, wire, est, nextSid, hsq, nOther, nGoAway, srvLast, pos, out, ft, nTO>>
 
 Init ==
   /\ side \in Sides
@@ -382,12 +399,13 @@ Init ==
   /\ est = [s \in SidSet |-> E0]
   /\ nextSid = 1 /\ hsq = [d \in Dirs |-> 0] /\ nOther = 0 /\ nGoAway = 0 /\ srvLast = -1
   /\ pos = [d \in Dirs |-> 0] /\ out = [d \in Dirs |-> 0]
-  /\ ft = [d \in Dirs |-> FT0] /\ m = M0 /\ ended = FALSE /\ calls = <<>>
+  /\ ft = [d \in Dirs |-> FT0] /\ m = M0 /\ ended = FALSE /\ calls = <<>> /\ nTO = 0
 
 Next == EnvSend
         \/ (\E d \in Dirs, n \in 1..MaxCall : Deliver(d, n))
         \/ (\E nm \in Names : TimesUp(nm))
         \/ (\E k \in EndKinds : End(k))
+        \/ ReadTimeout
 
 Spec == Init /\ [][Next]_vars /\ \A nm \in Names : WF_vars(TimesUp(nm))
 
@@ -432,5 +450,5 @@ StreamsAgree == \A s \in SidSet : m.streams[s].on = (LET V == View(m.hist, s, si
 HeldBackIsReleased == \A nm \in Names : (m.waiting[nm] # NoTrace) ~> (m.waiting[nm] = NoTrace \/ ended)
 
 Terminal == ended
-ViewNoCalls == <<side, wire, est, nextSid, hsq, nOther, nGoAway, srvLast, pos, out, ft, m, ended>>
+ViewNoCalls == <<side, wire, est, nextSid, hsq, nOther, nGoAway, srvLast, pos, out, ft, m, ended, nTO>>
 =============================================================================
